@@ -67,6 +67,13 @@ def special_scenarios(rng):
         if n == 1: L += ["m join e1"]
         L += ["m shutdown_wait", "m destroy", "m watchdog 30", "m reset"]
         out.append(("attach-first:%d" % n, "\n".join(L) + "\n"))
+    # descriptor 0 is free when the pool is created (a daemon that closed stdin): the pool's first descriptor IS 0
+    for n in (1, 2):
+        out.append(("fd0-free:%d" % n,
+                    "m closefd0\nm pool %d 0\nm start 0\nm waitrun\nm send 0 0 77\nm quiesce\nm shutdown\nm sleep 20000\nm shutdown_wait\nm destroy\nm openfd0\nm reset\n" % n))
+    # ... and the single-fault create paths in that environment
+    out.append(("fd0-free-faults", "m closefd0\n" + "".join("m fault %s %d 24\nm pool 2 0\nm reset\n" % (kind, k)
+                for kind in ("pipe2", "epoll_create1", "epoll_ctl") for k in (1, 2, 3)) + "m openfd0\n"))
     return out
 
 def fault_scenarios(nthr):
